@@ -12,7 +12,7 @@ RULE = (
     "tetrahedra / hand-assembled mixed polygons (quads, triangles, hexagons with hanging nodes; loop-consistent "
     "or index-oriented incidence, the latter exercising the convex-cell fallback of _compute_geometry_2d) and "
     "their extrusion to polyhedra / gmsh simplices (thorough); interior-node perturbation, affine maps (3-d), "
-    "rigid embedding of 1-d/2-d grids in 3-d. Oracle: V>0, sum V = domain measure known by construction, "
+    "rigid embedding of 1-d/2-d grids in 3-d, global length scales 1e-4..1e3 (units). Oracle: V>0, sum V = domain measure known by construction, "
     "|n_f| = A_f, outward normals, and the divergence-theorem identities sum_f s n_f = 0, "
     "sum_f s (x_f-x0).n_f = d V, sum_f s ((x_f-x0).n_f)(x_f-x0) = (d+1) V (x_c-x0), x0 a node of the grid; "
     "rtol 1e-9 of the terms' magnitude. Non-trivial = dim>=2 and (perturbed | affine | rigid motion | mixed "
@@ -33,7 +33,7 @@ REQUIRED = {"dim1": 0.1, "dim2": 0.1, "dim3": 0.1, "perturbed": 0.05, "embedded"
 
 
 def strategy(tier):
-    return grid_spec(gmsh=(tier == "thorough"))
+    return grid_spec(gmsh=(tier == "thorough"), scales=True)
 
 
 def check_geometry(g, measure, tag_prefix=""):
@@ -45,15 +45,17 @@ def check_geometry(g, measure, tag_prefix=""):
     V = g.cell_volumes
     require(V.shape == (g.num_cells,) and np.all(V > 0), T + "volume-positive", f"min volume {V.min() if V.size else None}")
     if measure is not None:
-        require_close(V.sum(), measure, T + "volume-sum", rtol=1e-10, what="sum of cell volumes vs domain measure")
+        require_close(V.sum(), measure, T + "volume-sum", rtol=1e-10, atol=0.0, what="sum of cell volumes vs domain measure")
     A = g.face_areas
     nrm = np.linalg.norm(g.face_normals, axis=0)
-    require_close(nrm, A, T + "normal-length", rtol=1e-10, what="|n_f| vs face area")
+    require_close(nrm, A, T + "normal-length", rtol=1e-10, atol=0.0, what="|n_f| vs face area")
     require(np.all(A > 0), T + "area-positive", "non-positive face area")
     fi, ci, sg = pp.matrix_operations.sparse_array_to_row_col_data(g.cell_faces)
     out = np.sum(g.face_normals[:, fi] * (g.face_centers[:, fi] - g.cell_centers[:, ci]), axis=0) * sg
     require(np.all(out > 0), T + "normal-outward", lambda: f"sign*n.(xf-xc) min {out.min():.3e}")
     x0 = g.nodes[:, 0:1]
+    extent = float(np.ptp(g.nodes, axis=1).max())
+    cmax = float(np.abs(g.nodes).max())
     xf = g.face_centers - x0
     xc = g.cell_centers - x0
     sn = g.face_normals[:, fi] * sg  # outward area-weighted normals per incidence
@@ -75,7 +77,8 @@ def check_geometry(g, measure, tag_prefix=""):
         s2 = np.bincount(ci, weights=w, minlength=nc)
         ref = (d + 1) * V * xc[k]
         sc2 = np.bincount(ci, weights=np.abs(w), minlength=nc) + np.abs(ref) + 1e-300
-        require(np.all(np.abs(s2 - ref) <= 1e-9 * sc2 + 1e-13), T + "divergence-centroid",
+        floor = 1e-13 * float(V.max()) * max(extent, cmax)  # rounding floor: grid size and coordinate magnitude
+        require(np.all(np.abs(s2 - ref) <= 1e-9 * sc2 + floor), T + "divergence-centroid",
                 lambda: f"component {k}: max err {np.abs(s2 - ref).max():.3e}")
 
 
